@@ -384,8 +384,40 @@ def check(run: Run) -> None:
         from . import c18
         R.share(run, "C07.h", c18, ["C18.b", "C18.b2"])
 
+    with run.obligation("C07.i", "K8", "the interning primitive returns ONE canonical address per key even when several executors build their types concurrently: the insertion "
+                        "into the key index happens in the same critical section as a lookup that returns the existing entry (the unlocked factory may have raced), so a "
+                        "loser never publishes a second copy of a plan / ops table that is compared by address"):
+        IT = "include/hgraph/types/utils/intern_table.h"
+        fi_ = run.tree.file(IT)
+        n_ins = 0
+        for fd_ in fi_.funcs:
+            if fd_.body is None or fd_.cls != "InternTable" or "emplace" not in fi_.text(fd_.body[0], fd_.body[1]):
+                continue
+            fa_ = R.parse(run, fd_)
+            cn_ = R.Canon()
+            for blk in [b for b in fa_.body.walk() if isinstance(b, C.Block)]:
+                for i_e, st in enumerate(blk.stmts):
+                    if not (isinstance(st, C.ExprStmt) and any(isinstance(c.fn, C.Member) and c.fn.name == "emplace" and cn_(c.fn.obj) == "m_cache" for c in R.calls(st))):
+                        continue
+                    n_ins += 1
+                    run.count(1, "C07.i")
+                    locks = [i for i, s2 in enumerate(blk.stmts[:i_e]) if isinstance(s2, C.Decl) and "lock_guard" in cn_(s2.type if s2.type is not None else s2)
+                             or (isinstance(s2, C.Decl) and any("lock" in (d.name or "") for d in s2.decls))]
+                    if not locks:
+                        run.finding("C07.i", f"InternTable::{fd_.name}:insert-outside-lock", f"InternTable::{fd_.name} inserts into the key index without holding the table mutex "
+                                    "in the same block", loc=fa_.loc(st))
+                        continue
+                    i_l = locks[-1]
+                    rechecks = [s2 for s2 in blk.stmts[i_l + 1:i_e] if isinstance(s2, C.If) and "m_cache.find(" in (cn_(s2.init) if s2.init is not None else "") + cn_(s2.cond)
+                                and any(isinstance(x, C.Return) for x in s2.then.walk())]
+                    if not rechecks:
+                        run.finding("C07.i", f"InternTable::{fd_.name}:insert-without-recheck", f"InternTable::{fd_.name} inserts under the mutex without looking the key up in the "
+                                    "same critical section: two threads interning the same new key each get their own copy (two addresses for one schema)", loc=fa_.loc(st))
+        run.sites(n_ins, 2, "InternTable insertions")
+
 
 VARIANTS = [
+    {"id": "i-intern-drops-recheck", "expect": "C07.i", "edits": [{"file": "include/hgraph/types/utils/intern_table.h", "find": "            std::lock_guard lock(m_mutex);\n            if (const auto it = m_cache.find(key); it != m_cache.end()) { return *it->second; }\n\n            const Value *result = value.get();", "replace": "            std::lock_guard lock(m_mutex);\n            const Value *result = value.get();"}]},
     {"id": "g-mesh-scope-popped-only-on-success", "expect": "C07.g", "edits": [{"file": "include/hgraph/lib/std/operators/impl/higher_order_impl.h", "find": "                auto pop = make_scope_exit([] noexcept { OperatorRegistry::instance().pop_mesh_scope(); });\n", "replace": ""}, {"file": "include/hgraph/lib/std/operators/impl/higher_order_impl.h", "find": "explicit_key_meta, &external_services, &w, \"mesh_\");\n", "replace": "explicit_key_meta, &external_services, &w, \"mesh_\");\n                OperatorRegistry::instance().pop_mesh_scope();\n"}]},
     {"id": "g-context-scope-destructor-forgets-pop", "expect": "C07.g", "edits": [{"file": "include/hgraph/types/context_wiring.h", "find": "        ~scope() { graph_wiring_detail::pop_context_source(); }", "replace": "        ~scope() {}"}]},
     {"id": "f-recorder-keeps-seeded-buffer-when-sparse", "expect": "C07.f", "edits": [{"file": "include/hgraph/lib/std/operators/impl/record_replay_memory_impl.h", "find": "                          Scalar<\"key\", std::string> key, Scalar<\"sparse\", Bool>, Scalar<\"model\", Str>,\n                          GlobalStateView gs, State<ResolvedBindings> bindings)", "replace": "                          Scalar<\"key\", std::string> key, Scalar<\"sparse\", Bool> sparse, Scalar<\"model\", Str>,\n                          GlobalStateView gs, State<ResolvedBindings> bindings)"}, {"file": "include/hgraph/lib/std/operators/impl/record_replay_memory_impl.h", "find": "            gs.erase(key.value());", "replace": "            if (!sparse.value()) { gs.erase(key.value()); }"}]},
